@@ -10,10 +10,11 @@
 package main
 
 import (
-	"io/ioutil"
 	"bytes"
 	"flag"
 	"fmt"
+	"io/ioutil"
+	"math/big"
 	"net"
 	"regexp"
 	"sort"
@@ -227,10 +228,10 @@ func states() []state {
 type hostile struct {
 	name       string
 	ch         byte
-	msg        func(w *world) interface{} // typed message (encoded with the registered type prefix) ...
-	raw        func(w *world) []byte      // ... or raw bytes
+	msg        func(w *world) interface{}   // typed message (encoded with the registered type prefix) ...
+	raw        func(w *world) []byte        // ... or raw bytes
 	follow     func(w *world) []interface{} // further typed messages of the same peer on the same channel, delivered right after
-	mustIgnore bool                       // reference predicate: invalid under every reading => digest must not change
+	mustIgnore bool                         // reference predicate: invalid under every reading => digest must not change
 }
 
 const bigInt = 1<<31 - 1
@@ -342,8 +343,54 @@ func (w *world) altSplit(b, size int, trailing []byte) *types.PartSet {
 	return ps
 }
 
+// otherBody re-packs candidate block b with the SAME header over a different body (kind "evidence": a duplicate-vote
+// record with unverifiable votes is added; kind "data": the transaction list is emptied / a transaction is dropped):
+// what an equivocating proposer can sign and send to one node while the rest of the network gets the genuine block.
+func (w *world) otherBody(b int, kind string) *types.PartSet {
+	var blk *types.Block
+	if _, err := ser.DecodeReader(w.parts[b].GetReader(), &blk, 1<<26); err != nil {
+		vk.Fatalf("decoding candidate block %d: %v", b, err)
+	}
+	switch kind {
+	case "evidence":
+		k := w.others[0]
+		va := w.vote(k, types.VoteTypePrevote, 0, w.ids[0])
+		vb := w.vote(k, types.VoteTypePrevote, 0, w.ids[1])
+		vb.Signature = crypto.SignatureEd25519FromBytes(garbage(64))
+		blk.Evidence.Evidence = append(blk.Evidence.Evidence, &types.DuplicateVoteEvidence{PubKey: w.f.Keys[k].PubKey(), VoteA: va, VoteB: vb})
+	case "data":
+		to := cmn.BytesToAddress([]byte{7})
+		blk.Data = &types.Data{Txs: append(append(types.Txs{}, blk.Data.Txs...), types.NewTransaction(99, to, big.NewInt(1), 21000, big.NewInt(1e11), nil))}
+	}
+	ps := blk.MakePartSet(partSize)
+	if ps.HasHeader(w.parts[b].Header()) {
+		vk.Fatalf("otherBody(%s): part-set header did not change", kind)
+	}
+	return ps
+}
+
 func proposalMutations() []hostile {
 	var out []hostile
+	for _, kind := range []string{"evidence", "data"} {
+		kind := kind
+		out = append(out, hostile{name: fmt.Sprintf("Proposal{SameHeaderOtherBody(%s),proposer,parts=true}", kind), ch: cs.DataChannel,
+			msg: func(w *world) interface{} {
+				r := w.round()
+				p := *w.proposal(r, 0, -1)
+				p.BlockPartsHeader = w.otherBody(0, kind).Header()
+				sig, _ := w.f.Keys[w.proposer(r)].Sign(p.SignBytes(csnet.ChainID))
+				p.Signature = sig
+				return &cs.ProposalMessage{Proposal: &p}
+			},
+			follow: func(w *world) []interface{} {
+				ps := w.otherBody(0, kind)
+				var ms []interface{}
+				for i := 0; i < ps.Total(); i++ {
+					ms = append(ms, &cs.BlockPartMessage{Height: w.h, Round: w.round(), Part: ps.GetPart(i)})
+				}
+				return ms
+			}})
+	}
 	// the proposer of the round signs a SECOND proposal for the same block bytes split differently, and sends its parts
 	for _, alt := range []struct {
 		name     string
@@ -910,7 +957,7 @@ func main() {
 		done++
 		o := res
 		if o.Fatal != "" {
-			o.State, o.Msgs = o.Msgs[0], o.Msgs[1:]
+			o.State, o.Msgs = strings.TrimSuffix(strings.TrimPrefix(o.Msgs[0], "state="), "+honest-round-completion"), o.Msgs[1:]
 			kind := o.Msgs[0]
 			if k := strings.Index(kind, ","); k > 0 {
 				kind = kind[:k] + "}"
